@@ -91,6 +91,16 @@ Proof.
 Qed.
 
 (* the spec decoder inverts the spec encoder for every frame and every length form a peer may choose *)
+(* ... and so a compressed streamed send is ONE message on the wire whatever the compressor's write pattern: the frames
+   built from those segments regroup (under the RFC 6455 fragmentation grammar) into a single compressed data message
+   whose payload is the compressor's output without the trailing 00 00 ff ff *)
+Theorem C05_stream_compressed : forall server pmd op writes segs keys,
+  (op = 1 \/ op = 2) ->
+  fw_run {| fw_index := 0; fw_buffers := [] |} writes = Some segs ->
+  exists k, group_messages None (file_frames server pmd op 0 (seg_reads segs) keys)
+            = Some [WData op pmd (strip_tail (concat writes)) k].
+Proof. exact compressed_stream_one_message. Qed.
+
 Theorem C05_spec_roundtrip : forall lf f rest,
   frame_wf f -> lenform_ok lf (N.of_nat (length (f_payload f))) -> N.of_nat (length (f_payload f)) < 2 ^ 63 ->
   decode_frame (encode_frame lf f ++ rest) = DFrame f (minimal_of lf (N.of_nat (length (f_payload f)))) rest.
@@ -118,4 +128,5 @@ Print Assumptions C05_do_write_one_frame.
 Print Assumptions C05_stream_frames.
 Print Assumptions C05_stream_one_message.
 Print Assumptions C05_flate_segments.
+Print Assumptions C05_stream_compressed.
 Print Assumptions C05_spec_roundtrip.
